@@ -114,6 +114,9 @@ func dumpVal(v reflect.Value) string {
 			return "~"
 		}
 		if v.Type().NumMethod() > 0 { // jwt.Scope: a *UserScope or a UserScope
+			if e := v.Elem(); dumpNormEmpty && e.Kind() == reflect.Ptr && !e.IsNil() {
+				return dumpVal(e.Elem()) // a scope held by pointer or by value is the same content
+			}
 			return dumpVal(v.Elem())
 		}
 		b, err := json.Marshal(v.Interface())
